@@ -266,13 +266,21 @@ def run_case(case, stats):
                         if is_sql:
                             ex = rel.engine.to_executable(rel)
                             r1 = env.run_sql(ex, list(rel.columns))
-                            r2 = env.run_sql(rel.engine.to_executable(rel), list(rel.columns))
+                            try:
+                                r2 = env.run_sql(rel.engine.to_executable(rel), list(rel.columns))
+                            except DatabaseError:
+                                raise
+                            except Exception as e:
+                                raise Violation("execute-not-repeatable", f"the first execution of {str(rel)[:200]} succeeded, the second raised {type(e).__name__}: {str(e)[:200]}", sig=exc_sig(e))
                             from vf.core.prog import multiset
 
                             same = multiset(r1) == multiset(r2)
                         else:
                             r1 = env.run_iter(rel)
-                            r2 = env.run_iter(rel)
+                            try:
+                                r2 = env.run_iter(rel)
+                            except Exception as e:
+                                raise Violation("execute-not-repeatable", f"the first execution of {str(rel)[:200]} succeeded, the second raised {type(e).__name__}: {str(e)[:200]}", sig=exc_sig(e))
                             same = r1 == r2
                         if not same:
                             raise Violation("execute-not-repeatable", f"two executions of {str(rel)[:200]} returned {r1[:5]} and {r2[:5]}")
